@@ -197,3 +197,61 @@ func VerifC15ResetParams(g dataGetter, bps int) { InitSystemParams(g, bps) }
 func VerifC15VoteTotal(vr *VoteResult) *big.Int { return vr.GetTotal() }
 
 var _ = list.New
+
+// ---- node-level observation (rounds 3): parameters in memory against the state, and the plumbing that lets the
+// harness act as a second, coherent producer inside the same process (the package keeps ONE rank and ONE parameter
+// table; another node has its own).
+
+// VerifC15ParamsMemory returns the in-memory parameter table split into current values and pending next-block values.
+func VerifC15ParamsMemory() (cur, next map[string]*big.Int) {
+	cur, next = map[string]*big.Int{}, map[string]*big.Int{}
+	systemParams.mutex.Lock()
+	defer systemParams.mutex.Unlock()
+	for k, v := range systemParams.params {
+		if v == nil {
+			continue
+		}
+		if strings.HasSuffix(k, "next") {
+			next[strings.TrimSuffix(k, "next")] = new(big.Int).Set(v)
+		} else {
+			cur[k] = new(big.Int).Set(v)
+		}
+	}
+	return
+}
+
+// VerifC15ParamsLoad is the real loadParams on g (what InitSystemParams installs).
+func VerifC15ParamsLoad(g dataGetter) map[string]*big.Int {
+	out := map[string]*big.Int{}
+	for k, v := range loadParams(g).params {
+		if v != nil {
+			out[k] = new(big.Int).Set(v)
+		}
+	}
+	return out
+}
+
+// VerifC15Globals holds the two package-level pointers.
+type VerifC15Globals struct {
+	rank   *vpr
+	params *parameters
+}
+
+// VerifC15SwapInFresh installs a rank and a parameter table freshly loaded from g by the real loaders (the memory of
+// a node whose best block has that state) and returns the previous pointers untouched.
+func VerifC15SwapInFresh(g dataGetter) *VerifC15Globals {
+	h := &VerifC15Globals{rank: votingPowerRank, params: systemParams}
+	v, err := loadVpr(g)
+	if err != nil {
+		panic(err)
+	}
+	votingPowerRank = v
+	systemParams = loadParams(g)
+	return h
+}
+
+// VerifC15SwapBack re-installs the pointers saved by VerifC15SwapInFresh.
+func VerifC15SwapBack(h *VerifC15Globals) {
+	votingPowerRank = h.rank
+	systemParams = h.params
+}
